@@ -67,8 +67,10 @@ def register(w):
         "visit_list_ensures": ["len(result) == len(nodes)", "wf_exprs(result)",
                                "all_list(qs, result)"],
         "generic_requires": ["wf(node)", "qs(node)"],
+        # (NodeTransformer.generic_visit returns the node it was given: a Call stays a Call)
         "generic_ensures": ["wf(result)", "qs(result)", "same_kind(node, result)",
-                            "is_node(result)"],
+                            "is_node(result)",
+                            "implies(isinstance(node, ast.Call), isinstance(result, ast.Call))"],
         "assumes": ["generic_visit of a well-formed node of query shape whose children are "
                     "replaced by visit results satisfying the hypothesis is again well-formed and "
                     "of query shape (the shape constrains only Select/SelectMany/Where/First calls, "
@@ -249,7 +251,8 @@ def register(w):
         "params": {"node": "py"},
         "requires": ["isinstance(node, ast.Call)", "wf(node)", "qs(node)"],
         "raises": {"FuncADLIndexError": "any"},
-        "ensures": ["good(result)"],
+        "ensures": ["good(result)",
+                    "implies(not isinstance(node.func, ast.Name), isinstance(result, ast.Call))"],
         "modifies": ["*"], "facts_fuel": 6,
         "properties": ["C18", "C14"],
     })
@@ -266,6 +269,30 @@ def register(w):
                     "argument stack's private frames) is outside the engine's term view: its "
                     "contract `a Lambda of query shape with the same parameters count` is ASSUMED; "
                     "its behaviour is exercised by the bounded checks of C02 / C18"],
+        "properties": ["C18"],
+    })
+    U = "func_adl/util_ast.py"
+    C.register(w, {
+        "key": f"{U}::lambda_parameter_names",
+        "params": {"lam": "py"},
+        "requires": ["isinstance(lam, ast.Lambda)", "wf(lam)"],
+        "ensures": [],
+        "ret": "list",
+        "abstract": True, "trusted": True,
+        "assumes": ["lambda_parameter_names ([a.arg for a in posonlyargs + args + kwonlyargs]) "
+                    "raises nothing on a well-formed Lambda: the comprehension over a concatenation "
+                    "of three symbolic lists is outside what the engine can discharge"],
+        "properties": ["C18"],
+    })
+    C.register(w, {
+        "key": f"{U}::lambda_call_follow_renames",
+        "params": {"call": "py", "old_names": "list"},
+        "requires": ["isinstance(call, ast.Call)", "good(call)"],
+        "ensures": ["good(result)"],
+        "abstract": True, "trusted": True,
+        "assumes": ["lambda_call_follow_renames only replaces the NAMES of keyword arguments "
+                    "(dict(zip(...)) lookup, outside the engine's subset): the call stays a "
+                    "well-formed expression of query shape — assumed, exercised by engine B"],
         "properties": ["C18"],
     })
     # ---- term builders used by the fusion rules ---------------------------------------------
